@@ -157,3 +157,207 @@ Theorem C11_tol_check_rejects :
     tol_check (a, c, tol, delta, obs) = 1%nat.
 Proof. exact tol_check_rejects. Qed.
 Print Assumptions C11_tol_check_rejects.
+
+(** ** The meaning of [tol] for VECTOR / BLOCK systems  x = A x + c  over Q^n: entries >= 0,
+    max-row-sum norm ||A|| <= a < 1 ([rowsum r <= a] for every row), Kleene iteration
+    [viter A c k] from 0.  [vle x y]: x <= y componentwise; [vle_off t x y]: x <= y + t
+    componentwise; [veq]: == componentwise.  (Model/Tolerance.v; Proofs/Tolerance_vec.v,
+    Proofs/Tolerance_stop.v; satisfiability of the hypotheses: Proofs/Tolerance_examples.v.) *)
+Require Import Fggs.Proofs.Tolerance_vec Fggs.Proofs.Tolerance_stop Fggs.Proofs.Kleene_control.
+
+(** comparison principle: every sub-solution is below every super-solution; hence a fixed point
+    [mu] is unique and is the LEAST pre-fixed point (no sign condition on y) *)
+Theorem C11_vector_fixed_point_least :
+  forall (A : list (list Q)) (c : list Q) (a : Q),
+    Forall (Forall (fun q => 0 <= q)%Q) A -> Forall (fun r => rowsum r <= a)%Q A ->
+    (0 <= a)%Q -> (a < 1)%Q -> length A = length c ->
+    forall mu, veq mu (vstep A c mu) ->
+    forall y, length y = length c -> vle (vstep A c y) y -> vle mu y.
+Proof. exact vfix_least. Qed.
+Print Assumptions C11_vector_fixed_point_least.
+
+Theorem C11_vector_fixed_point_unique :
+  forall (A : list (list Q)) (c : list Q) (a : Q),
+    Forall (Forall (fun q => 0 <= q)%Q) A -> Forall (fun r => rowsum r <= a)%Q A ->
+    (0 <= a)%Q -> (a < 1)%Q -> length A = length c ->
+    forall mu, veq mu (vstep A c mu) -> forall mu', veq mu' (vstep A c mu') -> veq mu mu'.
+Proof. exact vfix_unique. Qed.
+Print Assumptions C11_vector_fixed_point_unique.
+
+(** the code's test [vclose tol x_k x_{k+1}] (every component within tol, absolute, symmetric)
+    at pass k implies  x_k <= mu <= x_k + tol/(1-a)  for the iterate fixed_point returns, and
+    x_{k+1} <= mu <= x_{k+1} + a tol/(1-a)  for the next one -- whatever the magnitude of c.
+    Sharp: for n = 1 the gap is exactly (x_{k+1} - x_k)/(1-a) (Tolerance_proofs.gap). *)
+Theorem C11_vector_stop_bound :
+  forall (A : list (list Q)) (c : list Q) (a : Q),
+    Forall (Forall (fun q => 0 <= q)%Q) A -> Forall (fun r => rowsum r <= a)%Q A ->
+    (0 <= a)%Q -> (a < 1)%Q -> length A = length c -> Forall (fun q => 0 <= q)%Q c ->
+    forall mu, veq mu (vstep A c mu) ->
+    forall k tol, (0 <= tol)%Q -> vclose tol (viter A c k) (viter A c (S k)) = true ->
+      vle (viter A c k) mu /\ vle_off (tol / (1 - a)) mu (viter A c k) /\
+      vle (viter A c (S k)) mu /\ vle_off (a * (tol / (1 - a))) mu (viter A c (S k)).
+Proof. exact vstop_bound_test. Qed.
+Print Assumptions C11_vector_stop_bound.
+
+(** MultiTensor.allclose on block representations (absent block = the semiring's zero [z],
+    compared with [allclose_default]; present blocks entry by entry; equal infinities close, an
+    infinity far from everything else) is the entrywise test on the dense readings, whichever
+    blocks are materialised *)
+Theorem C11_allclose_is_dense_test :
+  forall z tol shapes X Y,
+    xclose tol z z = true -> wf_blocks shapes X = true -> wf_blocks shapes Y = true ->
+    mt_close z tol X Y = forall2b (xclose tol) (dense z shapes X) (dense z shapes Y).
+Proof. exact mt_close_dense. Qed.
+Print Assumptions C11_allclose_is_dense_test.
+
+(** termination: the test fires at every pass K with a^K C <= tol (C bounds the entries of c) ... *)
+Theorem C11_vector_test_fires :
+  forall (A : list (list Q)) (c : list Q) (a : Q),
+    Forall (Forall (fun q => 0 <= q)%Q) A -> Forall (fun r => rowsum r <= a)%Q A ->
+    (0 <= a)%Q -> length A = length c -> Forall (fun q => 0 <= q)%Q c ->
+    forall C K tol, (0 <= C)%Q -> Forall (fun q => q <= C)%Q c -> (qpow a K * C <= tol)%Q ->
+      vclose tol (viter A c K) (viter A c (S K)) = true.
+Proof. exact vtest_fires. Qed.
+Print Assumptions C11_vector_test_fires.
+
+(** ... in particular for the explicit K = pass_bound a tol C = ceil((C - tol)/(tol (1 - a))) *)
+Theorem C11_pass_bound_ok :
+  forall a tol C, (0 <= a)%Q -> (a < 1)%Q -> (0 < tol)%Q -> (0 <= C)%Q ->
+    (qpow a (pass_bound a tol C) * C <= tol)%Q.
+Proof. exact pass_bound_ok. Qed.
+Print Assumptions C11_pass_bound_ok.
+
+(** the loop of fixed_point (the model of C02: [fixed_point_loop]) run on x |-> A x + c from 0
+    with the code's test: with kmax >= K it does not warn, stops at a pass k <= K and returns
+    x_k with  x_k <= mu <= x_k + tol/(1-a) *)
+Theorem C11_vector_fixed_point_run :
+  forall (A : list (list Q)) (c : list Q) (a : Q),
+    Forall (Forall (fun q => 0 <= q)%Q) A -> Forall (fun r => rowsum r <= a)%Q A ->
+    (0 <= a)%Q -> (a < 1)%Q -> length A = length c -> Forall (fun q => 0 <= q)%Q c ->
+    forall mu, veq mu (vstep A c mu) ->
+    forall C K tol kmax,
+      (0 <= C)%Q -> Forall (fun q => q <= C)%Q c -> (qpow a K * C <= tol)%Q -> (K <= kmax)%nat ->
+      exists k, (k <= K)%nat /\
+        fixed_point_loop (vstep A c) (vclose tol) kmax (vzero (length c))
+          = Some (viter A c k, viter A c (S k), false) /\
+        vle (viter A c k) mu /\ vle_off (tol / (1 - a)) mu (viter A c k).
+Proof. exact vfixed_point_run. Qed.
+Print Assumptions C11_vector_fixed_point_run.
+
+(** the same loop on MultiTensor-like block representations, started from the EMPTY MultiTensor
+    (every block absent) with MultiTensor.allclose as the test: for any implementation [FR] of
+    x |-> A x + c on representations, whichever blocks it materialises *)
+Theorem C11_block_fixed_point_run :
+  forall (A : list (list Q)) (c : list Q) (a : Q),
+    Forall (Forall (fun q => 0 <= q)%Q) A -> Forall (fun r => rowsum r <= a)%Q A ->
+    (0 <= a)%Q -> (a < 1)%Q -> length A = length c -> Forall (fun q => 0 <= q)%Q c ->
+    forall mu, veq mu (vstep A c mu) ->
+    forall shapes (FR : list block -> list block) C K tol kmax,
+      fold_right Nat.add 0%nat shapes = length c ->
+      (forall X x, represents shapes X x -> represents shapes (FR X) (vstep A c x)) ->
+      (0 <= C)%Q -> Forall (fun q => q <= C)%Q c -> (qpow a K * C <= tol)%Q -> (K <= kmax)%nat ->
+      exists k Y0 Y1, (k <= K)%nat /\
+        fixed_point_loop FR (mt_close (XFin 0) tol) kmax (repeat None (length shapes)) = Some (Y0, Y1, false) /\
+        represents shapes Y0 (viter A c k) /\ represents shapes Y1 (viter A c (S k)) /\
+        vle (viter A c k) mu /\ vle_off (tol / (1 - a)) mu (viter A c k).
+Proof. exact mt_fixed_point_run. Qed.
+Print Assumptions C11_block_fixed_point_run.
+
+(** the check function [vtol_check] (a = mnorm A computed, mu verified to be a fixed point)
+    accepts the exact iterate at which the loop stops and rejects every vector with a component
+    further below the fixed point than the bound plus the rounding allowance *)
+Theorem C11_vtol_check_sound :
+  forall A c mu tol k,
+    Forall (Forall (fun q => 0 <= q)%Q) A -> Forall (fun q => 0 <= q)%Q c -> (0 <= tol)%Q -> (mnorm A < 1)%Q ->
+    length A = length c -> veq mu (vstep A c mu) ->
+    vclose tol (viter A c k) (viter A c (S k)) = true ->
+    vtol_check (A, c, mu, tol, 0%Q, viter A c k) = 0%nat.
+Proof. exact vtol_check_sound. Qed.
+Print Assumptions C11_vtol_check_sound.
+
+Theorem C11_vtol_check_rejects :
+  forall A c mu tol delta obs,
+    vguard A c mu tol obs = true -> veq mu (vstep A c mu) ->
+    Exists (fun mo => snd mo < fst mo - tol / (1 - mnorm A) - delta)%Q (combine mu obs) ->
+    vtol_check (A, c, mu, tol, delta, obs) = 1%nat.
+Proof. exact vtol_check_rejects. Qed.
+Print Assumptions C11_vtol_check_rejects.
+
+(** ** NONLINEAR monotone systems.  Abstract form: F maps an invariant set below the fixed point
+    mu into itself, is monotone there, and contracts towards mu from below with factor a < 1
+    in the one-sided max norm; then the iterate at which the stopping distance is reached is
+    within tol/(1-a) below mu (and the next one within a tol/(1-a)). *)
+Require Import Fggs.Proofs.Tolerance_poly.
+
+Theorem C11_monotone_stop_bound :
+  forall (F : list Q -> list Q) (Inv : list Q -> Prop) (mu x0 : list Q) (a : Q),
+    (0 <= a)%Q -> (a < 1)%Q -> veq mu (F mu) ->
+    (forall x, Inv x -> vle x mu -> Inv (F x)) ->
+    (forall x, Inv x -> vle x mu -> vle (F x) (F mu)) ->
+    (forall t x, (0 <= t)%Q -> Inv x -> vle x mu -> vle_off t mu x -> vle_off (a * t) (F mu) (F x)) ->
+    vle x0 mu -> Inv x0 ->
+    forall k tol, (0 <= tol)%Q -> vle_off tol (iter (S k) F x0) (iter k F x0) ->
+      vle (iter k F x0) mu /\ vle_off (tol / (1 - a)) mu (iter k F x0) /\
+      vle_off (a * (tol / (1 - a))) mu (iter (S k) F x0).
+Proof. exact nl_stop_bound. Qed.
+Print Assumptions C11_monotone_stop_bound.
+
+(** polynomial systems over Q^n with non-negative coefficients ([pstep sys], Kleene iterates
+    [piter sys k] from 0): if [mu] is a non-negative fixed point at which every row sum of the
+    Jacobian ([dpoly_sum mu p]) is <= a < 1, the iterate at which the code's test fires satisfies
+    x_k <= mu <= x_k + tol/(1-a)  (below mu the Jacobian is smaller: mean-value inequality with
+    the derivative taken at mu, [mono_val_taylor]) *)
+Theorem C11_poly_stop_bound :
+  forall (sys : list (list (Q * list nat))) (mu : list Q) (a : Q),
+    Forall (Forall (fun m => 0 <= fst m)%Q) sys -> Forall (fun p => dpoly_sum mu p <= a)%Q sys ->
+    (0 <= a)%Q -> (a < 1)%Q -> veq mu (pstep sys mu) ->
+    forall k tol, vle (vzero (length sys)) mu -> (0 <= tol)%Q ->
+      vclose tol (piter sys k) (piter sys (S k)) = true ->
+      vle (piter sys k) mu /\ vle_off (tol / (1 - a)) mu (piter sys k) /\
+      vle_off (a * (tol / (1 - a))) mu (piter sys (S k)).
+Proof. exact poly_stop_bound. Qed.
+Print Assumptions C11_poly_stop_bound.
+
+(** ** The cross-semiring relations at LEAST FIXED POINTS / certified enclosures of recursive
+    grammars (Proofs/Cross_lfp.v: composition with C02's Kleene, Park and enclosure theorems) *)
+Require Import Fggs.Model.Kleene Fggs.Proofs.SP_mono Fggs.Proofs.Cross_lfp.
+
+(** Bool = support of Real at the least fixed point: the Boolean least fixed point B (reached by
+    the Boolean Kleene chain after k <= #cells passes) is the support of the k-th Real Kleene
+    iterate and contains the support of every Real iterate, i.e. it is the support of the
+    supremum of the Real chain *)
+Theorem C11_bool_lfp_is_support_of_real_lfp :
+  forall G (w : env (R:=ereal)),
+  wf_grammar G = true ->
+  exists k, (k <= length (flat_map (fun X => map (pair X) (all_assts (lshape G X))) (nonterminals G)))%nat /\
+    let sw := fun l idx => supp (w l idx) in
+    let B := Zk bool_ops G sw k in
+    env_eq_on G (step bool_ops G sw B) B /\
+    (forall v : env (R:=bool), env_le_on bool_ops G (step bool_ops G sw v) v -> env_le_on bool_ops G B v) /\
+    (forall X xi, supp (Zk ereal_ops G w k X xi) = B X xi) /\
+    (forall j X xi, In X (nonterminals G) -> In xi (all_assts (lshape G X)) ->
+                    le bool_ops (supp (Zk ereal_ops G w j X xi)) (B X xi)).
+Proof. exact supp_lfp. Qed.
+Print Assumptions C11_bool_lfp_is_support_of_real_lfp.
+
+(** Viterbi <= Log at certified enclosures: every max-times Kleene iterate (hence the Viterbi
+    least fixed point, their supremum) is below the upper end of every certified Real enclosure *)
+Theorem C11_viterbi_below_real_enclosure :
+  forall G w K lo u,
+  wf_grammar G = true ->
+  enclosure ereal_ops rd_real infl_real eleb G w K = Some (lo, u) ->
+  forall k X xi, In X (nonterminals G) -> In xi (all_assts (lshape G X)) ->
+    ele (Zk maxtimes_ops G w k X xi) (env_of ereal_ops u X xi).
+Proof. exact maxtimes_below_real_enclosure. Qed.
+Print Assumptions C11_viterbi_below_real_enclosure.
+
+(** ... and below every pre-fixed point of the Real equations, in particular the Real least
+    fixed point wherever it exists as an element of the carrier *)
+Theorem C11_viterbi_below_real_prefix :
+  forall G w (v : env (R:=ereal)),
+  wf_grammar G = true ->
+  (forall X xi, In X (nonterminals G) -> In xi (all_assts (lshape G X)) -> ele (step ereal_ops G w v X xi) (v X xi)) ->
+  forall k X xi, In X (nonterminals G) -> In xi (all_assts (lshape G X)) ->
+    ele (Zk maxtimes_ops G w k X xi) (v X xi).
+Proof. exact maxtimes_below_real_prefix. Qed.
+Print Assumptions C11_viterbi_below_real_prefix.
